@@ -371,7 +371,8 @@ fn pool(s: i64) -> LinearCombination<F> {
     let terms = match s {
         1 => vec![t(1, 1)],
         2 => vec![t(2, 1), t(-1, 2), t(3, 0)],
-        _ => vec![t(0, 2), t(1, 2)],
+        3 => vec![t(0, 2), t(1, 2)],
+        _ => vec![t(1, 1), t(2, 0), t(5, 0)],
     };
     let mut lc = LinearCombination::empty("lc");
     for x in terms {
